@@ -206,7 +206,7 @@ func encodeTop(vc *VC, fn *ssa.Function, d *Decl) []inputVar {
 	pos := posOf(fn, fn.Pos())
 	for _, c := range d.Get("ensures") {
 		f := post.trBool(c.E)
-		vc.oblige("post", c.Label, rg, f, "ensures "+c.Text, fr.props, pos)
+		vc.oblige("post", c.Label, rg, f, "ensures "+c.Text, fr.props, pos).AltGuards = conds
 	}
 	for _, c := range d.Get("nok") {
 		f := post.trBool(c.E)
